@@ -1689,14 +1689,14 @@ impl Term<Name> {
         // unwrap apply and add void to arg stack!
         arg_stack.push(());
 
-        let Term::Delay(else_arg) = else_arg.as_ref() else {
+        let Term::Delay(else_body) = else_arg.as_ref() else {
             let lookup = var_occurrence_stack(builtin, arg_stack, cap);
             let lookup = combine_capped(lookup, condition);
             let lookup = combine_capped(lookup, then_arg);
             return combine_capped(lookup, else_arg);
         };
 
-        let Term::Delay(then_arg) = then_arg.as_ref() else {
+        let Term::Delay(then_body) = then_arg.as_ref() else {
             let lookup = var_occurrence_stack(builtin, arg_stack, cap);
             let lookup = combine_capped(lookup, condition);
             let lookup = combine_capped(lookup, then_arg);
@@ -1708,7 +1708,7 @@ impl Term<Name> {
                 if a.text == DefaultFunction::IfThenElse.wrapped_name()
                     || a.text == DefaultFunction::ChooseList.wrapped_name() =>
             {
-                if matches!(else_arg.as_ref(), Term::Error) {
+                if matches!(else_body.as_ref(), Term::Error) {
                     // Pop 3 args of arg_stack due to branch execution
                     arg_stack.pop();
                     arg_stack.pop();
@@ -1722,8 +1722,8 @@ impl Term<Name> {
 
                     let remaining = cap - lookup.occurrences;
 
-                    lookup.combine(var_occurrence_stack(then_arg, arg_stack, remaining))
-                } else if matches!(then_arg.as_ref(), Term::Error) {
+                    lookup.combine(var_occurrence_stack(then_body, arg_stack, remaining))
+                } else if matches!(then_body.as_ref(), Term::Error) {
                     // Pop 3 args of arg_stack due to branch execution
                     arg_stack.pop();
                     arg_stack.pop();
@@ -1737,7 +1737,7 @@ impl Term<Name> {
 
                     let remaining = cap - lookup.occurrences;
 
-                    lookup.combine(var_occurrence_stack(else_arg, arg_stack, remaining))
+                    lookup.combine(var_occurrence_stack(else_body, arg_stack, remaining))
                 } else {
                     let lookup = var_occurrence_stack(builtin, arg_stack, cap);
                     let lookup = combine_capped(lookup, condition);
